@@ -456,7 +456,7 @@ class C10(Prop):
     thorough_budget = 24000
     quick_deadline_s = 100
     thorough_deadline_s = 800
-    all_branches = ["b:bulk", "p:seq", "p:reorder", "p:rate", "h:raise", "h:ok", "c:hook-raise", "c:hook-ok", "f:rate", "f:replay", "f:allow", "f:block", "f:rx-hit", "f:sub-hit", "l:off", "l:bad", "l:new",
+    all_branches = ["b:bulk", "p:seq", "p:reorder", "p:rate", "h:raise", "h:ok", "h:reenter", "c:hook-raise", "c:hook-ok", "f:rate", "f:replay", "f:allow", "f:block", "f:rx-hit", "f:sub-hit", "l:off", "l:bad", "l:new",
                     "l:replace", "g:hit", "g:miss", "c:allow", "c:block-sev", "c:block-err", "c:block-acute",
                     "c:cooling-low", "i:lvl0", "i:lvl1", "i:lvl2", "i:lvl3", "i:lvl4", "v:len-short", "v:len-long",
                     "v:null", "v:ctl", "v:json-size", "v:json-depth", "v:json-dec", "v:json-val", "v:json-rec"]
@@ -754,7 +754,7 @@ class C10(Prop):
             op = rng.choice(["filter"] * 14 + ["learn", "learn", "forget", "import", "thr", "addsig", "adv", "adv",
                                                "clearaudit", "stats", "export", "thrattr", "rate", "rate", "adaptive",
                                                "hook", "hook", "par", "par", "new", "use", "xfer", "sigop", "sigop",
-                                               "envelope", "sigobj"])
+                                               "envelope", "sigobj", "mutret"])
             if op == "new":
                 colony[cur] = (sigs, learned, adaptive, hooked)
                 custom = [self._rand_sig(rng, 3) for _ in range(rng.choice([0, 0, 1, 2]))]
@@ -817,11 +817,13 @@ class C10(Prop):
                         abs_.append(self._sigtok(h[a:a + rng.randint(1, 6)], rng.randint(1, 3), False))
                 for s in abs_:
                     learned[s.split("/")[0]] = s
-                lines.append(" ".join(["import"] + abs_))
+                lines.append(" ".join([rng.choice(["import", "import", "importg", "importt"])] + abs_))
             elif op in ("thr", "thrattr"):
                 lines.append(f"{op} {rng.choice([0, 1, 2, 3])}")
             elif op == "rate":
                 lines.append(f"rate {rng.choice(['none', '0', '1', '2', '3', '5', '8', 'b1', 'b0', 'f2', 'f3'])}")
+            elif op == "mutret":
+                lines.append(f"mutret {rng.choice(['audit', 'export', 'stats'])}")
             elif op == "envelope":
                 lines.append(f"envelope {rng.randrange(self.N_ENVELOPES)}")
             elif op == "sigobj":
@@ -848,7 +850,7 @@ class C10(Prop):
                 adaptive = rng.random() < 0.5
                 lines.append(f"adaptive {show_bool(adaptive)}")
             elif op == "hook":
-                k = rng.choice(['none', 'ok', 'R', 'K', 'E', 'A'])
+                k = rng.choice(['none', 'ok', 'R', 'K', 'E', 'A', 'F', 'G', 'L'])
                 hooked = k != "none"
                 lines.append(f"hook {k}")
             elif op == "addsig":
@@ -1017,7 +1019,7 @@ class C10(Prop):
                 hist.append(c)
                 lines.append("filter " + hexs(c))
         if rng.random() < 0.6:
-            lines.append(f"hook {rng.choice(['ok', 'R', 'K', 'E', 'A'])}")
+            lines.append(f"hook {rng.choice(['ok', 'R', 'K', 'E', 'A', 'F', 'G', 'L'])}")
         burst(rng.choice([0, 1, 2, 3, 4]))
         lines.append(f"rate {r1}")
         burst((0 if r1 == "none" else int(r1)) + rng.choice([1, 2, 3]))
@@ -1392,6 +1394,29 @@ class C10(Prop):
                                         "forget " + hexs("hello"), "filter " + hexs("hello"), "filter " + hexs("say hello"), "stats"],
                               "note": "the input wrapped in another envelope (source / type / strength / metadata / trace id / "
                                       "timestamp), the same Signal object sent again or edited in place"})
+        for kind in ("importg", "importt"):
+            for lv in (2, 3):
+                wraps.append({"lines": ["mem 2 none 1", f"{kind} " + self._sigtok("jailbreak", lv, False) + " " + self._sigtok("hello", 1, False),
+                                        "filter " + hexs("a JailBreak!"), "filter " + hexs("hello"), "export", f"{kind}", "stats"],
+                              "note": "antibodies handed over as a one-shot generator / a tuple"})
+        for kind in ("audit", "export", "stats"):
+            wraps.append({"lines": ["mem 2 none 1 " + jbs, "learn " + self._sigtok("hello", 2, False), "filter " + hexs("a JailBreak!"),
+                                    "filter " + hexs("fine"), f"mutret {kind}", "filter " + hexs("hello there"), "filter " + hexs("fine"),
+                                    "export", "stats"],
+                          "note": "the caller edits the list / dict a getter returned"})
+        reent = []
+        ralpha = ["filter " + hexs("a JailBreak!"), "filter " + hexs("jailbreak"), "filter " + hexs("hello"),
+                  "filter " + hexs("re-entrant probe"), "filter " + hexs("it is hooked"), "thr 3", "forget " + hexs("hooked"),
+                  "learn " + self._sigtok("probe", 2, False), "adv 60000000"]
+        for cfg in ("mem 2 none 1 " + jbs, "mem 2 3 1 " + jbs, "mem 2 none 0 " + jbs):
+            for hk_ in ("F", "G", "L"):
+                for k in range(1, 4):
+                    for ops in itertools.product(ralpha, repeat=k):
+                        if k == 3 and not cfg.startswith("mem 2 none 1"):
+                            continue
+                        if any(o_.endswith(hexs("a JailBreak!")) or o_.endswith(hexs("jailbreak")) for o_ in ops):
+                            reent.append({"lines": [cfg, f"hook {hk_}"] + list(ops) + ["stats"],
+                                          "note": f"re-entrant on_threat hook ({hk_}), depth {k}"})
         edits = []
         ealpha = ["sigop append " + self._sigtok("hello", 2, False), "sigop insert0 " + self._sigtok("hello", 3, False), "sigop pop",
                   "sigop remove0", "sigop clear", "sigop assign " + self._sigtok("there", 2, False), "sigop assign",
@@ -1410,7 +1435,11 @@ class C10(Prop):
                     edits.append({"lines": ["inn 3 15 none " + self._sigtok("omega", 5, False)] + list(ops)
                                   + ["check " + hexs("oh, hello there omega"), "istats"],
                                   "note": f"the public list im.patterns edited directly, depth {k}"})
-        return [{"name": "the input wrapped differently: 16 envelopes (source / signal type / strength / metadata flags / "
+        return [{"name": "re-entrant on_threat hook (calls m.filter on a probe / on the very input it was told about / "
+                         "m.learn_threat while it runs; un-installs itself for the duration): all histories of <= 3 ops (<= 2 "
+                         "under a rate limit / with adaptive immunity off) over probes, threshold, forget, learn, time that "
+                         "trigger the hook at least once", "cases": reent},
+                {"name": "the input wrapped differently: 16 envelopes (source / signal type / strength / metadata flags / "
                          "trace id / timestamp) x Signal object new / sent again / edited in place, rules changed between "
                          "the calls", "cases": wraps},
                 {"name": "the public lists m.signatures / im.patterns edited directly (append / insert / pop / del / clear / "
@@ -1470,6 +1499,20 @@ class C10(Prop):
             rec = {"result": result, "seen": (len(log), bool(log) and log[-1] is result, st["total_blocked"])}
             harness.hookrec = rec
             exc = None
+            if kind in ("F", "G", "L"):
+                # a hook that calls back into the membrane: it un-installs itself for the duration (a public attribute)
+                m.on_threat = None
+                try:
+                    if kind == "L":
+                        m.learn_threat("hooked", harness.MB.ThreatLevel(3), "learned by the hook", False)
+                    else:
+                        probe = "re-entrant probe" if kind == "F" else harness.cur_content
+                        k0 = len(harness.rxlog)
+                        inner = m.filter(harness._signal(probe))
+                        rec["inner"] = (probe, inner, list(harness.rxlog[k0:]), k0)
+                finally:
+                    m.on_threat = hook
+                return
             if kind == "R":
                 exc = RuntimeError("alert sink unreachable")
             elif kind == "K":
@@ -1481,6 +1524,7 @@ class C10(Prop):
             if exc is not None:
                 rec["raised"] = exc
                 raise exc
+        hook.reentrant = kind in ("F", "G", "L")
         return hook
 
     def _mk_ihook(self, im, kind):
@@ -1621,18 +1665,59 @@ class C10(Prop):
                         m = MB.Membrane(silent=True)
                     content = dec(t[1])
                     self.hookrec = None
+                    self.cur_content = content
                     exc = None
                     r = None
-                    try:
-                        r = m.filter(self._signal(content))
-                    except Exception as e:
-                        exc = e
-                    calls, table = self._rx_obs(content)
-                    lines[idx] = line + " @ " + table if table else line + " @"
+                    sig_ = self._signal(content)
+                    if getattr(m.on_threat, "reentrant", False):
+                        # a hook that re-enters the membrane may dead-lock it: guarded call
+                        from ..util import call_guarded
+                        # (generous while nothing ever hung in this run; once calls do hang, a short wait is enough)
+                        nh = getattr(self, "hangs", 0)
+                        kind_, val_ = call_guarded(lambda: m.filter(sig_), timeout=3.0 if nh == 0 else 1.0 if nh < 3 else 0.2)
+                        if kind_ == "hang":
+                            self.hangs = nh + 1
+                            obs.append("raise:Hang (the call did not return: re-entrant hook)")
+                            lines[idx] = line + " @"
+                            members[:] = [None if x is m else x for x in members]
+                            m = None      # the object is stuck (its lock is held for ever): it is not touched again
+                            continue
+                        if kind_ == "raise":
+                            exc = val_
+                        else:
+                            r = val_
+                    else:
+                        try:
+                            r = m.filter(sig_)
+                        except Exception as e:
+                            exc = e
+                    hr = self.hookrec
+                    inner_ = hr.get("inner") if hr else None
+                    if inner_ is not None:
+                        calls, table = self._rx_obs(content, self.rxlog[:inner_[3]])
+                        icalls, itable = self._rx_obs(inner_[0], inner_[2])
+                        lines[idx] = (line + " @ " + table).rstrip() + " ;; " + itable
+                    else:
+                        calls, table = self._rx_obs(content)
+                        lines[idx] = line + " @ " + table if table else line + " @"
                     log = m.get_audit_log()
                     st = m.get_statistics()
-                    hr = self.hookrec
                     hk = "-" if hr is None else f"{hr['seen'][0]}/{show_bool(hr['seen'][1])}/{hr['seen'][2]}"
+                    if exc is None and hr is not None and getattr(m.on_threat, "reentrant", False):
+                        # the decision the hook was told about, as the hook saw it booked; then what the hook's own call got
+                        ms = sorted(self._sigtok(s.pattern, s.level.value, s.is_regex) for s in r.matched_signatures)
+                        o_ = (f"{show_bool(r.allowed)} {r.threat_level.value} m=[{','.join(ms)}] audit={hr['seen'][0]} "
+                              f"last={show_bool(hr['seen'][1])} tf={st['total_filtered']} tb={st['total_blocked']} "
+                              f"ln={st['learned_patterns']} bh={st['blocked_hashes']} rx={calls} hk={hk}")
+                        if inner_ is None:
+                            o_ += " | inner ok"
+                        else:
+                            ri = inner_[1]
+                            ims = sorted(self._sigtok(s.pattern, s.level.value, s.is_regex) for s in ri.matched_signatures)
+                            o_ += (f" | inner {show_bool(ri.allowed)} {ri.threat_level.value} m=[{','.join(ims)}] "
+                                   f"audit={len(log)} last={show_bool(bool(log) and log[-1] is ri)} rx={icalls}")
+                        obs.append(o_)
+                        continue
                     if exc is not None:
                         if hr is not None and hr.get("raised") is exc:
                             head = f"raise:hook:{type(exc).__name__}"
@@ -1678,13 +1763,15 @@ class C10(Prop):
                 elif op == "forget":
                     m.forget_threat(unhexs(t[1]))
                     obs.append(f"ok ln={m.get_statistics()['learned_patterns']}")
-                elif op == "import":
+                elif op in ("import", "importg", "importt"):
                     donor = MB.Membrane(silent=True)
                     for tok in t[1:]:
                         pat, lvl, rx = self._parse_sig(tok)
                         donor.learn_threat(pat, MB.ThreatLevel(lvl), "antibody", rx)
                     # a donor's dict collapses duplicate keys exactly like the recipient's does
-                    m.import_antibodies(donor.export_antibodies())
+                    abs_ = donor.export_antibodies()
+                    # ... handed over as a list, a one-shot generator or a tuple (all legal iterables of signatures)
+                    m.import_antibodies(abs_ if op == "import" else (a_ for a_ in abs_) if op == "importg" else tuple(abs_))
                     obs.append(f"ok ln={m.get_statistics()['learned_patterns']}")
                 elif op == "thr":
                     m.set_threshold(MB.ThreatLevel(int(t[1])))
@@ -1694,6 +1781,15 @@ class C10(Prop):
                     obs.append("ok")
                 elif op == "rate":
                     m.rate_limit = None if t[1] == "none" else self._num(t[1])
+                    obs.append("ok")
+                elif op == "mutret":
+                    # the caller edits what a getter handed out
+                    if t[1] == "audit":
+                        m.get_audit_log().clear()
+                    elif t[1] == "export":
+                        m.export_antibodies().clear()
+                    else:
+                        m.get_statistics().clear()
                     obs.append("ok")
                 elif op == "envelope":
                     self.env_k = int(t[1])
@@ -2104,7 +2200,7 @@ class C10(Prop):
 
         def fresh(thr, rate, adaptive, sigs):
             return NS(thr=thr, rate=rate, adaptive=adaptive, sigs=list(sigs), learned={}, audit=0, allowed_times=[],
-                      blocked_before={}, epoch_blocked=[], n_calls=0, n_blocked=0)
+                      blocked_before={}, epoch_blocked=[], n_calls=0, n_blocked=0, hook_kind="none")
         S = fresh(2, None, True, [])
         members = [S]
         base = []                     # the class-level built-in table every member of this case starts from
@@ -2217,6 +2313,8 @@ class C10(Prop):
                 S.epoch_blocked = []
             elif op == "adaptive":
                 S.adaptive = t[1] == "1"
+            elif op == "hook":
+                S.hook_kind = t[1]
             elif op == "addsig":
                 S.sigs.append(self._parse_sig(t[1]))
             elif op == "setsig":
@@ -2230,7 +2328,7 @@ class C10(Prop):
             elif op == "forget":
                 S.learned.pop(unhexs(t[1]), None)
                 S.epoch_blocked = []
-            elif op == "import":
+            elif op in ("import", "importg", "importt"):
                 for x in t[1:]:
                     s = self._parse_sig(x)
                     S.learned[s[0]] = s
@@ -2239,6 +2337,14 @@ class C10(Prop):
                 S.audit = 0
             elif op == "filter":
                 content = dec(t[1])
+                inner = None
+                if " | inner " in o:
+                    # the hook called back into the membrane: its own call is a decision of the gate like any other
+                    o, inner = o.split(" | inner ", 1)
+                    if inner != "ok":
+                        S.n_calls += 1
+                        if inner.startswith("0 "):
+                            S.n_blocked += 1
                 f = o.split(" ")
                 S.audit += 1
                 S.n_calls += 1
@@ -2271,6 +2377,17 @@ class C10(Prop):
                 if f[3] != f"audit={S.audit}" or f[4] != "last=1":
                     out.append(Violation("audit_complete", f"audit={S.audit} last=1", f"{f[3]} {f[4]}", idx))
                 judge(content, f, o, idx)
+                if inner == "ok":
+                    if S.adaptive:
+                        S.learned["hooked"] = ("hooked", 3, False)
+                    S.epoch_blocked = []
+                elif inner is not None:
+                    fi = inner.split(" ")
+                    S.audit += 1
+                    if fi[3] != f"audit={S.audit}" or fi[4] != "last=1":
+                        out.append(Violation("audit_complete", f"audit={S.audit} last=1 (the hook's own call)", f"{fi[3]} {fi[4]}", idx))
+                    probe_ = "re-entrant probe" if S.hook_kind == "F" else content
+                    judge(probe_, fi, "the hook's own call: " + inner, idx)
             elif op == "par" and o.startswith("par "):
                 # several threads filter at the same instant: every clause is judged per decision; the window and the
                 # published counters are judged once all of them have returned
